@@ -63,7 +63,17 @@ theorem code_shape :
      Facts.Pipe.frameWrittenInOneWrite && Facts.Pipe.responseWrittenInOneWrite &&
      Facts.Pipe.requestWrittenInOneWrite && Facts.Pipe.unmarshalStripsPadding &&
      Facts.Pipe.refusedPauseRestartsWriter && Facts.Pipe.refusedPlayRestoresPrePlay &&
-     Facts.Pipe.refusedRecordRestoresPreRecord) = true ∧
+     Facts.Pipe.refusedRecordRestoresPreRecord &&
+     -- lock discipline of the stream's reader sets: writers of the sets hold the mutex exclusively,
+     -- the shared lock is held by the three read-only functions only
+     Facts.Pipe.streamCloseLocksExclusively && Facts.Pipe.readerAddLocksExclusively &&
+     Facts.Pipe.readerRemoveLocksExclusively && Facts.Pipe.readerSetActiveLocksExclusively &&
+     Facts.Pipe.readerSetInactiveLocksExclusively && Facts.Pipe.rtcpWriteUnderStreamRLock &&
+     Facts.Pipe.multicastParamsUnderStreamRLock) = true ∧
+    Facts.Pipe.streamSharedLockSites = 3 ∧ Facts.Pipe.streamExclusiveLockSites = 5 ∧
+    Facts.Pipe.activeReadersWriteSites = 2 ∧ Facts.Pipe.readersWriteSites = 2 ∧
+    Facts.Pipe.multicastReaderCountWriteSites = 2 ∧ Facts.Pipe.readerSetInactiveUnsafeCallSites = 2 ∧
+    Facts.Pipe.readerRemoveUnsafeCallSites = 2 ∧
     Facts.Pipe.interleavedMagic = 36 := by decide
 
 /-- **Isolation.**  A reader's state depends only on the writes and on its own events: what the other
